@@ -61,100 +61,9 @@ def water_label(a):
     return any(E.LABEL_ELEMENT.get(m.val, '?') in ('H', 'O') for m in (a._isotope_mods or []))
 
 
-def run(chk):
+def oracles():
+    """the property evaluated on the implementation: name -> function(case) -> None | description of the failure"""
     pt, mass_calc, constants, chem_calc, chem_constants, chem_util, pp, Mod, Interval = E.pt_mods()
-    tier = chk.tier
-    rng = chk.rng
-    big = tier != 'quick'
-    chk.lean_build(['PeptVerif.Props.C18'], DRV)
-    quirks = E.probe_quirks()
-    chk.notes.append(f'composition-path behaviours shown by the implementation (owned by C02/C03): '
-                     f'deltaIgnoresMult={quirks[0]} labileDeltaAnyIon={quirks[1]}')
-    chk.trusted += [
-        'numbers are parameters of the model: residue / modification masses and compositions, element masses and the ion-type '
-        'term are resolved by the implementation and sent as exact values (their correctness is C02/C03/C10)',
-        'modelled: condense_to_mass_mods with everything it calls structurally (condense_static_mods, slice, split, strip, '
-        'mass fast path and label path, add_*_mods, serialize, round as round-half-even); not modelled: repr of floats below 1e-4 '
-        '(compared numerically), the parser (the oracle parses the output with the implementation)',
-    ]
-    chk.rule = ('annotations of length 1..10 over 20 residues with labile / unknown-position / N-term / C-term / residue / interval mods '
-                '(numeric, named, formula, glycan, alternatives; multipliers), 1-3 static rules with residue, N-Term, C-Term targets, '
-                '0-2 isotope labels on different elements, charge and adducts present or absent x include_plus x precision 3..8; '
-                'non-trivial = the input carries at least one modification, rule or label; distinct = distinct protocol line')
-    N = 2500 if not big else 30000
-    cases = _load_corpus() + [gen_case(rng, Mod) for _ in range(N)]
-    fixed = ['PEP[Phospho]TIDE/2', 'PEP[Phospho]TIDE', '[1]?PEPTIDE', 'PE(PT)[10]IDE', '<[10]@N-Term>PEP', '<[10]@C-Term>PEP',
-             '<[10]@P>PEP', '{100}PEPTIDE', '<13C>PEP', '<13C>[1]?PEP', 'PEP/2[+2Na+]', 'PEPTIDE', 'PEPTIDE/2', '[Acetyl]-PEP[1]^2T',
-             'P[Oxidation|INFO:x]EP', 'PEP[Glycan:Hex]', '<13C>PEP[Formula:C2]', '<13C>PEP[1.5]', '<13C>{1.5}PEP', '(?PE)PT', '(PE)PT',
-             'PEP[1][-1]T', '[1][-1]-PEPT', '<15N>PEPTIDE-[Amidated]', '<13C><15N>[Acetyl]-PEPTIDE/3', '<34S>MCMC[Carbamidomethyl]',
-             '<[Oxidation]@M,N-Term><13C>MPEM/2', '{Glycan:Hex}{1.5}PEP', 'PEPTIDE-[Methyl][1]']
-    for s in fixed:
-        for plus in (False, True):
-            cases.append({'a': annot.dump(pp.parse(s), sort_internal=False), 'rules': None, 'plus': plus, 'p': rng.choice([3, 6, 8])})
-    for c in cases:
-        a = _ann(c)
-        for k, v in (('static', a._static_mods), ('isotope', a._isotope_mods), ('labile', a._labile_mods), ('unknown', a._unknown_mods),
-                     ('nterm', a._nterm_mods), ('cterm', a._cterm_mods), ('internal', a._internal_mods), ('intervals', a._intervals),
-                     ('charge', a._charge), ('adducts', a._charge_adducts)):
-            if v:
-                chk.count('has_' + k)
-        chk.count('precision_%d' % c['p'])
-        chk.count('include_plus_%d' % int(c['plus']))
-
-    def nontrivial(c, im=None):
-        a = _ann(c)
-        return any([a._static_mods, a._isotope_mods, a._labile_mods, a._unknown_mods, a._nterm_mods, a._cterm_mods,
-                    a._internal_mods, a._intervals])
-
-    # ------------------------------------------------------------------ correspondence
-    corr = cases
-    mods_of = chk.driver(DRV, ['mods_of\t' + c['a'] for c in corr])
-
-    def line(t):
-        c, vals = t
-        a = _ann(c)
-        labels = [m.val for m in (a.isotope_mods or [])]
-        env = E.env_fields(a.sequence, vals, ion='p', labels=labels, quirks=quirks)
-        return '\t'.join(['condense_mass', c['a'], str(int(c['plus'])), str(c['p'])] + env)
-
-    def impl(t):
-        c, _ = t
-        try:
-            return annot.esc(mass_calc.condense_to_mass_mods(_ann(c), c['plus'], c['p']))
-        except (ValueError, TypeError, KeyError) as e:
-            return 'ERR:' + ('TypeError' if isinstance(e, TypeError) else 'KeyError' if isinstance(e, KeyError) else 'ValueError')
-
-    def cmp(t_p):
-        def f(im, m):
-            if im.startswith(('ERR', 'EXC')) or m.startswith(('ERR', 'bad', 'unmod')):
-                return im == m
-            return E.same_text_numeric(annot.unesc(im), annot.unesc(m), 1.01 * 10.0 ** (-t_p))
-        return f
-
-    ct = list(zip(corr, [E.vals_from_reply(r) for r in mods_of]))
-    for p in range(3, 9):
-        sub = [t for t in ct if t[0]['p'] == p]
-        chk.correspond('condense_to_mass_mods', DRV, sub, line, impl, compare=cmp(p), nontrivial_fn=lambda t, im: nontrivial(t[0]))
-    exact = sum(1 for d in chk.disagreements)
-    # rounding primitive: round(x, p) + repr against the model's round-half-even + positional text
-    rc = []
-    for _ in range(400 if not big else 5000):
-        x = rng.choice([rng.uniform(-300, 300), rng.uniform(-2, 2), round(rng.uniform(-50, 50), rng.randint(0, 9)),
-                        rng.randint(-5, 5) + 0.5 * 10 ** -rng.randint(1, 8)])
-        rc.append((x, rng.randint(3, 8)))
-
-    def r_impl(t):
-        x, p = t
-        return repr(round(x, p))
-
-    def r_cmp(im, m):
-        if 'e' in im:
-            return abs(float(im) - float(m)) < 1e-12
-        return im == m or (float(im) == 0 and float(m) == 0)
-
-    chk.correspond('round', DRV, rc, lambda t: f'round\t{E.rat(t[0])}\t{t[1]}', r_impl, compare=r_cmp)
-
-    # ------------------------------------------------------------------ oracle: the property on the implementation
     iso = constants.ISOTOPIC_ATOMIC_MASSES
 
     def numeric_mods(l):
@@ -281,6 +190,104 @@ def run(chk):
                         f'{out}')
         return None
 
+    return {'condense_preserves_peptide': o_prop}
+
+
+def run(chk):
+    pt, mass_calc, constants, chem_calc, chem_constants, chem_util, pp, Mod, Interval = E.pt_mods()
+    tier = chk.tier
+    rng = chk.rng
+    big = tier != 'quick'
+    chk.lean_build(['PeptVerif.Props.C18'], DRV)
+    quirks = E.probe_quirks()
+    chk.notes.append(f'composition-path behaviours shown by the implementation (owned by C02/C03): '
+                     f'deltaIgnoresMult={quirks[0]} labileDeltaAnyIon={quirks[1]}')
+    chk.trusted += [
+        'numbers are parameters of the model: residue / modification masses and compositions, element masses and the ion-type '
+        'term are resolved by the implementation and sent as exact values (their correctness is C02/C03/C10)',
+        'modelled: condense_to_mass_mods with everything it calls structurally (condense_static_mods, slice, split, strip, '
+        'mass fast path and label path, add_*_mods, serialize, round as round-half-even); not modelled: repr of floats below 1e-4 '
+        '(compared numerically), the parser (the oracle parses the output with the implementation)',
+    ]
+    chk.rule = ('annotations of length 1..10 over 20 residues with labile / unknown-position / N-term / C-term / residue / interval mods '
+                '(numeric, named, formula, glycan, alternatives; multipliers), 1-3 static rules with residue, N-Term, C-Term targets, '
+                '0-2 isotope labels on different elements, charge and adducts present or absent x include_plus x precision 3..8; '
+                'non-trivial = the input carries at least one modification, rule or label; distinct = distinct protocol line')
+    N = 2500 if not big else 30000
+    cases = _load_corpus() + [gen_case(rng, Mod) for _ in range(N)]
+    fixed = ['PEP[Phospho]TIDE/2', 'PEP[Phospho]TIDE', '[1]?PEPTIDE', 'PE(PT)[10]IDE', '<[10]@N-Term>PEP', '<[10]@C-Term>PEP',
+             '<[10]@P>PEP', '{100}PEPTIDE', '<13C>PEP', '<13C>[1]?PEP', 'PEP/2[+2Na+]', 'PEPTIDE', 'PEPTIDE/2', '[Acetyl]-PEP[1]^2T',
+             'P[Oxidation|INFO:x]EP', 'PEP[Glycan:Hex]', '<13C>PEP[Formula:C2]', '<13C>PEP[1.5]', '<13C>{1.5}PEP', '(?PE)PT', '(PE)PT',
+             'PEP[1][-1]T', '[1][-1]-PEPT', '<15N>PEPTIDE-[Amidated]', '<13C><15N>[Acetyl]-PEPTIDE/3', '<34S>MCMC[Carbamidomethyl]',
+             '<[Oxidation]@M,N-Term><13C>MPEM/2', '{Glycan:Hex}{1.5}PEP', 'PEPTIDE-[Methyl][1]']
+    for s in fixed:
+        for plus in (False, True):
+            cases.append({'a': annot.dump(pp.parse(s), sort_internal=False), 'rules': None, 'plus': plus, 'p': rng.choice([3, 6, 8])})
+    for c in cases:
+        a = _ann(c)
+        for k, v in (('static', a._static_mods), ('isotope', a._isotope_mods), ('labile', a._labile_mods), ('unknown', a._unknown_mods),
+                     ('nterm', a._nterm_mods), ('cterm', a._cterm_mods), ('internal', a._internal_mods), ('intervals', a._intervals),
+                     ('charge', a._charge), ('adducts', a._charge_adducts)):
+            if v:
+                chk.count('has_' + k)
+        chk.count('precision_%d' % c['p'])
+        chk.count('include_plus_%d' % int(c['plus']))
+
+    def nontrivial(c, im=None):
+        a = _ann(c)
+        return any([a._static_mods, a._isotope_mods, a._labile_mods, a._unknown_mods, a._nterm_mods, a._cterm_mods,
+                    a._internal_mods, a._intervals])
+
+    # ------------------------------------------------------------------ correspondence
+    corr = cases
+    mods_of = chk.driver(DRV, ['mods_of\t' + c['a'] for c in corr])
+
+    def line(t):
+        c, vals = t
+        a = _ann(c)
+        labels = [m.val for m in (a.isotope_mods or [])]
+        env = E.env_fields(a.sequence, vals, ion='p', labels=labels, quirks=quirks)
+        return '\t'.join(['condense_mass', c['a'], str(int(c['plus'])), str(c['p'])] + env)
+
+    def impl(t):
+        c, _ = t
+        try:
+            return annot.esc(mass_calc.condense_to_mass_mods(_ann(c), c['plus'], c['p']))
+        except (ValueError, TypeError, KeyError) as e:
+            return 'ERR:' + ('TypeError' if isinstance(e, TypeError) else 'KeyError' if isinstance(e, KeyError) else 'ValueError')
+
+    def cmp(t_p):
+        def f(im, m):
+            if im.startswith(('ERR', 'EXC')) or m.startswith(('ERR', 'bad', 'unmod')):
+                return im == m
+            return E.same_text_numeric(annot.unesc(im), annot.unesc(m), 1.01 * 10.0 ** (-t_p))
+        return f
+
+    ct = list(zip(corr, [E.vals_from_reply(r) for r in mods_of]))
+    for p in range(3, 9):
+        sub = [t for t in ct if t[0]['p'] == p]
+        chk.correspond('condense_to_mass_mods', DRV, sub, line, impl, compare=cmp(p), nontrivial_fn=lambda t, im: nontrivial(t[0]))
+    exact = sum(1 for d in chk.disagreements)
+    # rounding primitive: round(x, p) + repr against the model's round-half-even + positional text
+    rc = []
+    for _ in range(400 if not big else 5000):
+        x = rng.choice([rng.uniform(-300, 300), rng.uniform(-2, 2), round(rng.uniform(-50, 50), rng.randint(0, 9)),
+                        rng.randint(-5, 5) + 0.5 * 10 ** -rng.randint(1, 8)])
+        rc.append((x, rng.randint(3, 8)))
+
+    def r_impl(t):
+        x, p = t
+        return repr(round(x, p))
+
+    def r_cmp(im, m):
+        if 'e' in im:
+            return abs(float(im) - float(m)) < 1e-12
+        return im == m or (float(im) == 0 and float(m) == 0)
+
+    chk.correspond('round', DRV, rc, lambda t: f'round\t{E.rat(t[0])}\t{t[1]}', r_impl, compare=r_cmp)
+
+    # ------------------------------------------------------------------ oracle: the property on the implementation
+    o_prop = oracles()['condense_preserves_peptide']
     sel = cases if (big or chk.broken()) else cases
     chk.oracle('condense_preserves_peptide', sel, o_prop, nontrivial_fn=nontrivial,
                key_fn=lambda c: f"{c['a']}|{int(c['plus'])}|{c['p']}")
@@ -311,5 +318,18 @@ def classify(f):
 
 
 def replay(chk, obj):
-    print(json.dumps(obj, indent=1))
-    return 0
+    """re-evaluate a stored failure on the current implementation: exit 1 (with the VIOLATION line) if it still fails"""
+    if obj.get('kind') != 'oracle':
+        print(json.dumps(obj, indent=1))
+        return 0
+    fn = oracles()[obj['oracle']]
+    try:
+        r = fn(obj['case'])
+    except Exception as e:  # noqa
+        r = f'unexpected {type(e).__name__}: {e}'
+    if r is None:
+        print(f"{PID} replay: {obj['oracle']} holds on this input now")
+        return 0
+    print(f"VIOLATION property={PID} replay={obj.get('path', '<given file>')}")
+    print('  oracle:', r)
+    return 1
